@@ -214,13 +214,15 @@ class C05(E1Check):
                 "environment events or an injection; distinct = distinct complete traces")
 
     def bounds(self, tier: str) -> dict:
-        return {"shapes": QUICK_SHAPES if tier == "quick" else list(SHAPES), "deviation_bound": 0 if tier == "quick" else "1 for <= 3 components, 0 above"}
+        return {"shapes": QUICK_SHAPES if tier == "quick" else list(SHAPES), "deviation_bound": 0 if tier == "quick" else "1 for <= 3 components, 0 above",
+                "thinning": "thorough: every 6th program of the 5-component shape r(a,b,c,d)"}
 
     def units(self, tier: str, seed: int) -> list:
         progs = []
         shapes = QUICK_SHAPES if tier == "quick" else list(SHAPES)
         for shape in shapes:
             singles = candidate_deps(shape)
+            n_before = len(progs)
             for pattern in PATTERNS:
                 depsets: list[tuple] = [()]
                 depsets += [(d,) for d in singles]
@@ -239,6 +241,10 @@ class C05(E1Check):
                                 p = build_program(shape, pattern, deps, extras, pos, pub)
                                 if p is not None:
                                     progs.append(p)
+            if shape == "r(a,b,c,d)":
+                # four siblings: 4! completion orders per phase make this shape 90 % of the tier's cost (measured 12 400 of 13 300
+                # core-seconds); every 6th program of its grid is kept
+                progs[n_before:] = progs[n_before:][::6]
             for phase in ("prepare", "start"):
                 for phs in (True, False):
                     p = build_twofail(shape, phase, phs)
